@@ -339,8 +339,9 @@ class MinGenSet():
             if self.solver.get_model_status() == "kOptimal":
                 genset_sol = self.solver.get_values(self.genset_vars)
                 # Solver values of integer variables may be off by a tolerance (e.g. 6.9999999): round, do not truncate
-                # (and a continuous variable with lower bound 0 may come back as -4.4e-16)
-                self._solution = sorted((round(genset_sol[i]) if self.weight_type == int else max(0.0, float(genset_sol[i]))) for i in range(k))
+                # (and a continuous variable with lower bound 0 may come back as -4.4e-16 or 1.1e-16 instead of 0: values within the
+                # solver tolerance of 0 are returned as 0)
+                self._solution = sorted((round(genset_sol[i]) if self.weight_type == int else (float(genset_sol[i]) if abs(genset_sol[i]) > 1e-9 else 0.0)) for i in range(k))
                 self._is_solved = True
                 self.solve_statistics = {
                     "solve_time": time.perf_counter() - start_time,
